@@ -411,8 +411,6 @@ RenderSci(s, m, sign, D) ==
 Dmax(s) == Pow10(Len(s.dp)) - 1
 RoundDiv(a, b) == (2 * a + b) \div (2 * b)              \* a/b rounded half away (a, b >= 0)
 AbsInt(a) == IF a < 0 THEN -a ELSE a
-(* |fv/10^fl - nu/d| = Err(..) / (d * 10^fl) *)
-FErr(fv, fl, nu, d) == AbsInt(fv * d - nu * Pow10(fl))
 (* first pass over the denominators: <<bd, be>> with the smallest error be / (bd * p); second pass: all that tie *)
 RECURSIVE MinErr(_, _, _, _, _, _)
 MinErr(fv, p, d, dmax, bd, be) ==
@@ -480,8 +478,6 @@ CivilFromDays(z) ==
 DateOfSerial(sn) == CivilFromDays(sn - 25569)            \* n >= 61
 MinSerial == 61
 MaxSerial == 2958465
-MonthNames == <<"January", "February", "March", "April", "May", "June", "July", "August", "September", "October",
-                "November", "December">>
 MonthChars == << <<"J","a","n","u","a","r","y">>, <<"F","e","b","r","u","a","r","y">>, <<"M","a","r","c","h">>,
                  <<"A","p","r","i","l">>, <<"M","a","y">>, <<"J","u","n","e">>, <<"J","u","l","y">>,
                  <<"A","u","g","u","s","t">>, <<"S","e","p","t","e","m","b","e","r">>, <<"O","c","t","o","b","e","r">>,
